@@ -328,7 +328,7 @@ def make_sched_run(cfg):
                 pass
         while worlds:
             worlds.pop().uninstall()
-    watch = S.watch_functions(server.DaemonObject.get_next_stream_item, server.DaemonObject.close_stream, server.Daemon._clientDisconnect, server.Daemon._housekeeping)
+    watch = S.watch_functions(server.DaemonObject.get_next_stream_item, server.DaemonObject.close_stream, server.Daemon._clientDisconnect, server.Daemon._housekeeping, follow=True)
 
     class Conn:
         pass
